@@ -102,6 +102,8 @@ class Family:
             "z0r": float(z0 * rng.uniform(0.2, 0.9)),
             "Uref": float(rng.uniform(1.0, 8.0)),
         }
+        # wind direction turning with height (Ekman-like veering): theta(z) = theta + veer * z / zm; 0 for most families
+        d["veer"] = float(rng.uniform(-1.2, 1.2)) if rng.random() < 0.35 else 0.0
         return Family(d)
 
     def __call__(self, z):
@@ -127,7 +129,8 @@ class Family:
             K = KAPPA * us * z / phi_c(z / L)
         else:
             K = KAPPA * us * zm * np.ones_like(z)
-        return (U * np.cos(d["theta"]), U * np.sin(d["theta"]), d["ax"] * K, d["ay"] * K, K)
+        th = d["theta"] + d.get("veer", 0.0) * z / zm
+        return (U * np.cos(th), U * np.sin(th), d["ax"] * K, d["ay"] * K, K)
 
     @property
     def height_dependent(self):
